@@ -1,1 +1,2 @@
 import AgProofs.Props.C10
+import AgProofs.Props.C12
